@@ -104,6 +104,7 @@ type clResult struct {
 	hung   bool
 	live   int
 	stream string
+	second string // result class and state of a second Run() after the first returned
 }
 
 func in(l []string, x string) bool {
@@ -278,6 +279,23 @@ func runClScenario(sc ClScenario) clResult {
 		}
 	}
 	res.stream = streamLine(watch, ret, true)
+	if !res.hung && ret != "" {
+		// a second Run() of the same runner: the model says it refuses (c08_cluster_refuses)
+		second := make(chan string, 1)
+		go func() {
+			cls := "nil"
+			if runner.Run(context.Background()) != nil {
+				cls = "err"
+			}
+			second <- cls + "." + runner.GetState()
+		}()
+		select {
+		case res.second = <-second:
+		case <-time.After(2 * time.Second):
+			res.second = "hung"
+			runner.Stop()
+		}
+	}
 	return res
 }
 
@@ -313,7 +331,11 @@ func clHeader(sc ClScenario, r clResult) string {
 		hung = 1
 	}
 	b, _ := json.Marshal(sc)
-	return fmt.Sprintf("maps=%s ff=%s fo=%s nr=%s end=hung%d.live%d scn~%s", strings.Join(maps, ","), enc(sc.FactoryFail), enc(sc.FailOnce), enc(sc.NeverReady), hung, r.live,
+	second := r.second
+	if second == "" {
+		second = "none"
+	}
+	return fmt.Sprintf("maps=%s ff=%s fo=%s nr=%s second=%s end=hung%d.live%d scn~%s", strings.Join(maps, ","), enc(sc.FactoryFail), enc(sc.FailOnce), enc(sc.NeverReady), second, hung, r.live,
 		base64.RawURLEncoding.EncodeToString(b))
 }
 
